@@ -68,6 +68,9 @@ VERIF = HERE.parent.parent.parent
 CORPUS = VERIF / "corpus" / "C09" / "cases.json"
 
 TYPE_POOL = ["T1", "T2", "T3"]
+# conversion classes that really convert: a custom temperature-like unit x (any custom symbol) <-> K with K = a*x + b
+AFFINE = {"A1": (1.25, 273.15), "A2": (2.0, 100.0), "A3": (0.5, -10.0)}
+TEMP_DIMS = [0, 0, 0, 1, 0, 0, 0, 0]
 DIMS = [[1, 0, 0, 0, 0, 0, 0, 0], [3, 2, -1, 0, 0, 1, 0, 0], [0, 1, 0, 0, 0, 0, 0, 0], [2, 1, -2, 0, 0, 0, 0, 0],
         [0, 0, 0, 0, 0, 0, 0, 0], [1, 0, -1, 0, 0, 0, 0, 0]]
 MAGS = [3, 2.5, 1, 0.02, 1e3, 7, 12.75]
@@ -142,6 +145,26 @@ class Worker:
             self.types[n] = type(n, (UnitType,), {"_istype": lambda self: False})
         for t in S.UNIT_TYPES:
             self.types[t.__name__] = t
+        base_keys = set(S.UNIT_STANDARD.keys())
+
+        def make_affine(a, b):
+            def _istype(self):
+                u1, u2 = list(self.baseunits1.units), list(self.baseunits2.units)
+                if len(u1) != 1 or len(u2) != 1:
+                    return False
+                if u1[0] not in base_keys and u2[0] == "K":
+                    self.conversion = ("_affine", a, b)
+                elif u1[0] == "K" and u2[0] not in base_keys:
+                    self.conversion = ("_affine", 1.0 / a, -b / a)
+                else:
+                    return False
+                return True
+
+            def _affine(self, value, a, b):
+                return value * a + b
+            return {"_istype": _istype, "_affine": _affine}
+        for n, (a, b) in AFFINE.items():
+            self.types[n] = type(n, (UnitType,), make_affine(a, b))
         self.s0 = self.snapshot()
         self.s0_objs = (list(S.UNIT_STANDARD.keys()), dict(S.UNIT_STANDARD.items()), list(S.UNIT_TYPES),
                         list(S.UNIT_PREFIXES.keys()), dict(S.UNIT_PREFIXES.items()))
@@ -265,6 +288,18 @@ class Worker:
             ev.append(["used", s, True])
             if not expected:
                 mism.append(["outside", s])
+        elif k == "conv":
+            # a converted VALUE inside the scope: Quantity(v, s).value('K')
+            s, v = p[1], p[2]
+            try:
+                val = float(self.Quantity(v, s).value("K"))
+            except Exception:
+                ev.append(["used", s, False])
+                if s in self.s0_rows or any(s in a for a in active):
+                    mism.append(["usable", s])
+                raise
+            ev.append(["used", s, True])
+            self.convs.append([len(ev) - 1, s, v, val])
         elif k == "seq":
             for q in p[1:]:
                 self.exec_prog(q, ev, active, qvals, mism)
@@ -309,12 +344,13 @@ class Worker:
 
     def case_prog(self, req):
         ev, qvals, mism = [], {}, []
+        self.convs = []
         try:
             self.exec_prog(req["prog"], ev, [], qvals, mism)
             ok = True
         except (Exception, _Interrupt, KeyboardInterrupt, SystemExit):
             ok = False
-        return self.finish({"ok": ok, "events": ev, "qvals": qvals, "mismatch": mism})
+        return self.finish({"ok": ok, "events": ev, "qvals": qvals, "mismatch": mism, "convs": self.convs})
 
     # ---- histories: explicit UnitEnvironment(...) / close() with overlapping lifetimes
     def case_hist(self, req):
@@ -786,6 +822,42 @@ class Gen:
             return "skip"
         return stmts[0] if len(stmts) == 1 else ["seq"] + stmts
 
+    def converting(self):
+        """Scopes whose units come with conversion classes that really convert (K = a*x + b), single and nested;
+        inside the scopes converted VALUES are taken. Specification: the class registered last (front of
+        UNIT_TYPES, as the model says) converts; without any such class the conversion is linear."""
+        r = self.rng
+        syms = r.sample(self.uni["customs"], 4)
+        classes = r.sample(sorted(AFFINE), 3)
+
+        def tunit(cls):
+            d = {"magnitude": "1", "dimensions": json.dumps(TEMP_DIMS)}
+            if cls:
+                d["definition"] = {"ty": cls}
+            return {"dict": d}
+
+        def conv(sym):
+            return ["conv", sym, r.choice([0, 10, 80, -40, 2.5])]
+        inner_kind = r.choice(["none", "other-class", "same-class", "no-class", "fails", "two-levels"])
+        body = [conv(syms[0])]
+        if inner_kind != "none":
+            icls = {"other-class": classes[1], "same-class": classes[0], "no-class": None, "fails": classes[1],
+                    "two-levels": classes[1]}[inner_kind]
+            iunits = [[syms[1], tunit(icls)]]
+            if inner_kind == "fails":
+                iunits.append([r.choice(self.uni["existing"]), tunit(None)])
+            ibody = [conv(syms[0]), conv(syms[1])]
+            if inner_kind == "two-levels":
+                ibody.append(["scope", [[syms[2], tunit(classes[2])]], ["seq", conv(syms[0]), conv(syms[1]), conv(syms[2])]])
+                ibody.append(conv(syms[1]))
+            inner = ["scope", iunits, ["seq"] + ibody]
+            body += [["attempt", inner] if inner_kind == "fails" or r.random() < 0.5 else inner, conv(syms[0])]
+        prog = ["scope", [[syms[0], tunit(classes[0])]] + ([[syms[3], tunit(None)]] if r.random() < 0.3 else []),
+                body[0] if len(body) == 1 else ["seq"] + body]
+        self.kinds.append("converting")
+        self.nested += 0 if inner_kind == "none" else 1
+        return ["seq", ["attempt", prog], ["attempt", ["use", syms[0]]]]
+
     def back_to_back(self):
         """Repeated scopes in direct succession: the same number of units, different symbols, and NO unit
         expression evaluated between them (no `use` at base table size, no Quantity-valued definitions).
@@ -809,8 +881,11 @@ class Gen:
 
     def program(self):
         r = self.rng
-        if r.random() < 0.15:
+        x = r.random()
+        if x < 0.15:
             return self.back_to_back()
+        if x < 0.27:
+            return self.converting()
         customs = r.sample(self.uni["customs"], min(len(self.uni["customs"]), r.randint(4, 9)))
         top = []
         for _ in range(r.randint(1, 3)):
@@ -843,11 +918,15 @@ def subst_qvals(p, qvals):
         return ["seq"] + [subst_qvals(q, qvals) for q in p[1:]]
     if p[0] == "attempt":
         return ["attempt", subst_qvals(p[1], qvals)]
+    if p[0] == "conv":
+        return ["use", p[1]]          # for the model a conversion is a use; its value is judged by the harness
     return p
 
 
 def is_nontrivial(p, depth=0):
     if isinstance(p, str):
+        return False
+    if p[0] in ("use", "conv"):
         return False
     if p[0] == "scope":
         if depth >= 1:
@@ -975,6 +1054,7 @@ def load_corpus():
 
 def prog_stream(ctx, worker, g0, count):
     uni = universe(g0)
+    from harness.util import rel_close
     clean = clean_sum(g0)
     gen = Gen(ctx.rng, uni)
     progs = list(load_corpus()["progs"])
@@ -1024,6 +1104,23 @@ def prog_stream(ctx, worker, g0, count):
             whats = [w for s, w in spec_violations(rs, clean) if s == sig] or [what]
             ctx.violation(sig, whats[0], {"stream": "prog", "prog": small, "impl_events": rs.get("events"),
                                           "impl_final": rs.get("final"), "clean": clean})
+        # converted values inside the scopes: the class registered last (first in the model's UNIT_TYPES) converts
+        for idx, sym, v, val in r.get("convs", []):
+            types = g0["types"]
+            for e in m["events"][:idx + 1]:
+                if isinstance(e, list) and e[0] in ("entered", "exited"):
+                    types = e[2]["types"]
+            cls = next((t for t in types if t in AFFINE), None)
+            exp = v * AFFINE[cls][0] + AFFINE[cls][1] if cls else float(v)
+            ctx.count("prog.conversions")
+            if not rel_close(val, exp) and "usable:conversion" not in seen_sig:
+                seen_sig.add("usable:conversion")
+                ctx.violation("usable:conversion",
+                              "inside the scope Quantity(%s, %r).value('K') is %r; the conversion class registered last among the "
+                              "open scopes (%s) gives %r" % (v, sym, val, "%s: K = %s*x + %s" % ((cls,) + AFFINE[cls]) if cls else
+                                                              "none: linear", exp),
+                              {"stream": "prog", "prog": p, "conversion": [sym, v, val, exp], "model_types": types,
+                               "impl_events": r.get("events"), "clean": clean})
         # model's own verdict must be "restored" (theorem C09_restored); a model that is not is a tie problem
         if not m["restored"]:
             ctx.disagreement("prog", {"prog": p}, "the Lean model does not restore the tables (contradicts C09_restored)")
